@@ -82,11 +82,14 @@ def compare(fl, ref, vt):
     return out
 
 
+NEAR = 1.0 + 2.0**-20   # a fine-mesh neighbour of 1.0 (distinct point, within 1e-6)
+
+
 def points(D):
     if D == 1:
-        return [(0.0,), (1.0,), (2.0,)]
+        return [(0.0,), (1.0,), (2.0,), (NEAR,)]
     if D == 2:
-        return [(0.0, 0.0), (0.0, 1.0), (1.0, 0.0), (1.0, 1.0)]
+        return [(0.0, 0.0), (0.0, 1.0), (1.0, 0.0), (1.0, 1.0), (1.0, NEAR)]
     return [(0.0, 0.0, 0.0), (0.0, 0.0, 1.0), (0.0, 1.0, 1.0), (1.0, 1.0, 1.0)]  # sharing 0..3 coordinates
 
 
